@@ -152,6 +152,50 @@ Section Spec.
       intros H; injection H as <- <- <-. split; [reflexivity|]. right. auto.
   Qed.
 
+  (** ---- an error only when nothing is available ---- *)
+  Lemma from_cache_none sel conn :
+    from_cache_x lower is_space sel conn s (l_cfg c) (l_sni c) (l_ip c) = None ->
+    ((is_nil (normalize (l_sni c)) && negb (is_nil (default_name (l_cfg c)))) = true ->
+       sel s (normalize (default_name (l_cfg c))) = None) /\
+    (negb (is_nil (fallback_name (l_cfg c))) = true -> sel s (normalize (fallback_name (l_cfg c))) = None).
+  Proof.
+    unfold Model.from_cache_x, try_fallback_x. destruct (is_nil (normalize (l_sni c))).
+    - destruct (if conn then sel s (l_ip c) else None); [discriminate|].
+      destruct (is_nil (default_name (l_cfg c))); cbn [negb andb].
+      + destruct (is_nil (fallback_name (l_cfg c))); cbn [negb]; [intros _; split; discriminate|].
+        destruct (sel s (normalize (fallback_name (l_cfg c)))); [discriminate|]. intros _. split; [discriminate | reflexivity].
+      + destruct (sel s (normalize (default_name (l_cfg c)))); [discriminate|].
+        destruct (is_nil (fallback_name (l_cfg c))); cbn [negb]; [intros _; split; [reflexivity | discriminate]|].
+        destruct (sel s (normalize (fallback_name (l_cfg c)))); [discriminate|]. intros _. split; reflexivity.
+    - destruct (first_sel sel s (normalize (l_sni c) :: wildcard_candidates (normalize (l_sni c)))) as [[m x]|]; [discriminate|].
+      cbn [andb]. destruct (is_nil (fallback_name (l_cfg c))); cbn [negb]; [intros _; split; discriminate|].
+      destruct (sel s (normalize (fallback_name (l_cfg c)))); [discriminate|]. intros _. split; [discriminate | reflexivity].
+  Qed.
+
+  Lemma error_ok_model post :
+    lookup_x lower is_space (self c) (l_conn c) s (l_cap c) (l_cfg c) (l_sni c) (l_ip c) (l_envx c) = (RErr, post) ->
+    error_ok lower is_space c = true.
+  Proof.
+    unfold Model.lookup_x, error_ok, name_bad, loadable, sel_some. fold s.
+    set (sel := self c). intros H.
+    destruct (hello_name (l_cfg c) (l_ip c) (x_idna (l_envx c))) as [nm|] eqn:En.
+    2:{ reflexivity. }
+    destruct (subject_qualifies is_space nm) eqn:Eq; cbn [negb orb]; [|reflexivity].
+    destruct (from_cache_x lower is_space sel (l_conn c) s (l_cfg c) (l_sni c) (l_ip c)) as [[[c0 b] v]|] eqn:Ef.
+    - exfalso. destruct b; [discriminate|]. cbn [negb] in H.
+      destruct (if almost_full (l_cap c) (length (cache s)) then load_from_storage (x_storage (l_envx c)) (x_broken (l_envx c)) nm else None) as [x|];
+        [cbv zeta in H; destruct (sd_servable x); discriminate | discriminate].
+    - destruct (from_cache_none sel (l_conn c) Ef) as [Hd Hf]. cbn [negb] in H.
+      apply negb_true_iff. apply orb_false_iff. split; [apply orb_false_iff; split|].
+      + destruct (is_nil (normalize (l_sni c)) && negb (is_nil (default_name (l_cfg c)))) eqn:E; [|reflexivity].
+        rewrite (Hd eq_refl). reflexivity.
+      + destruct (negb (is_nil (fallback_name (l_cfg c)))) eqn:E; [|reflexivity].
+        rewrite (Hf eq_refl). reflexivity.
+      + destruct (almost_full (l_cap c) (length (cache s))); [|reflexivity]. cbn [andb].
+        destruct (load_from_storage (x_storage (l_envx c)) (x_broken (l_envx c)) nm) as [x|]; [|reflexivity].
+        cbv zeta in H. destruct (sd_servable x); [discriminate | reflexivity].
+  Qed.
+
   (** ---- default policy ---- *)
   Lemma first_listed_first_sel (cands : list name) :
     match first_listed s cands with
@@ -184,7 +228,9 @@ Section Spec.
       destruct (selected_ok m x Hs) as (Hc & Hl & Hrn & Hg & Hsp).
       unfold goodb in Hg. rewrite (complete_of_cached x Hc), Hl, Hrn, Hg, Hsp. reflexivity.
     - (* nothing listed under a preferred name *)
-      destruct r as [|x]; cbn [obs_of]; [reflexivity|].
+      destruct r as [|x]; cbn [obs_of].
+      { assert (Hs2 : sel = self c) by (unfold sel; symmetry; exact Hself).
+        rewrite Hs2 in Err. exact (error_ok_model post Err). }
       destruct (lookup_x_cases _ _ _ _ _ _ _ _ _ _ _ _ Err) as [(b & v & Hf)|(x0 & Hlo & Hfr & -> & _)].
       + destruct (unmatched_defaults sel x b v Hfl Hf) as (_ & [(Hn & Hd & -> & Hs)|(Hfb & -> & Hs)]).
         * destruct (selected_ok _ x Hs) as (Hc & Hl & Hrn & _ & _).
@@ -208,7 +254,8 @@ Section Spec.
     assert (Hgoal :
       match obs_of c r with
       | OEmpty => false
-      | OErr => forallb (fun v => match sel s v with Some _ => false | None => true end) (match_names lower is_space c)
+      | OErr => forallb (fun v => match sel s v with Some _ => false | None => true end) (match_names lower is_space c) &&
+                error_ok lower is_space c
       | OCert h complete =>
           complete && known_complete c h &&
           match first_sel sel s (match_names lower is_space c) with
@@ -225,7 +272,8 @@ Section Spec.
       - (* an error: no name tried for a match was accepted *)
         destruct (first_sel sel s (match_names lower is_space c)) as [[m x]|] eqn:Efs.
         + apply matched_decides in Efs. unfold lookup_x in Err. rewrite Efs in Err. discriminate.
-        + apply (first_sel_none sel) in Efs. apply forallb_forall. intros v Hv.
+        + apply andb_true_iff. split; [|exact (error_ok_model post Err)].
+          apply (first_sel_none sel) in Efs. apply forallb_forall. intros v Hv.
           rewrite Forall_forall in Efs. rewrite (Efs v Hv). reflexivity.
       - destruct (first_sel sel s (match_names lower is_space c)) as [[m x']|] eqn:Efs.
         + pose proof (matched_decides sel m x' Efs) as Hf. unfold lookup_x in Err. rewrite Hf in Err.
